@@ -2,7 +2,9 @@
 
 geo facet values (tuples):
   ('FRAC', w)          fractional position; w: 'W' half-open [0,1), 'C' closed [0,1], 'N' not wrapped
-  ('FDIFF', k)         fractional difference; k: 'MI' minimum image, 'W2' difference of two wrapped
+  ('FDIFF', k)         fractional difference; k: 'MI' minimum image (pymatgen), 'CW' componentwise reduced to [-0.5, 0.5]
+                       (rounding / two single-step corrections: minimum image only for vectors short against the cell),
+                       'W2' difference of two wrapped
                        operands (components in (-1,1)), 'W1' one single-step image correction already
                        applied to a W2 difference, 'CUM' running sum of MI steps, 'ANY' anything else
   ('CART', frame, pv)  Cartesian Angstrom; frame 'LAT' (rows of lattice.matrix), 'MDA' (MDAnalysis box
